@@ -2,26 +2,44 @@
 C06 — interval arithmetic over-approximates every concrete result.
 Property theorems over `Model/Interval.lean` (which mirrors lib/interval/interval.go).
 Helper lemmas live in `Proof/Interval*.lean`.
+
+This file: add, sub, mul, quo, lsh, rsh, unite, intersect —
+soundness, exact failure, empty-in-empty-out, tightness.
+`Props/C06Bits.lean`: and / or.
+
+Conventions: `X.mem x` is membership (`none` bound = infinite), `X.empty` is the Go
+`Empty()`; `tryQuo/tryLsh/tryRsh = none` is the Go `ok == false`.
+Concrete semantics: `x * y`, `Int.tdiv x y` (Go `Quo`), `x * 2 ^ y.toNat` (`Lsh`),
+`x / 2 ^ y.toNat` (floor division: `Rsh`).
 -/
-import WuffsVerif.Model.Interval
+import WuffsVerif.Proof.IntervalOps
 
 namespace WuffsVerif.Props.C06
 open WuffsVerif.Interval
 
+/-- the set of concrete results `{f x y | x ∈ X, y ∈ Y}` -/
+def Img (f : Int → Int → Int) (X Y : IR) (v : Int) : Prop :=
+  ∃ x y, X.mem x ∧ Y.mem y ∧ f x y = v
+
+/-- `Z` is exactly the hull of the concrete results: finite, sound, and both bounds attained -/
+def TightHull (f : Int → Int → Int) (X Y Z : IR) : Prop :=
+  ∃ l h, Z = ⟨some l, some h⟩ ∧ Img f X Y l ∧ Img f X Y h
+
 /-- a member exists ⇒ the interval is not `Empty()`. -/
-theorem not_empty_of_mem (X : IR) (x : Int) (h : X.mem x) : X.empty = false := by
-  obtain ⟨h1, h2⟩ := h
-  unfold IR.empty
-  cases hl : X.lo <;> cases hh : X.hi <;> simp
-  rw [hl] at h1; rw [hh] at h2
-  simp only [loLe, leHi] at h1 h2
-  omega
+theorem not_empty_of_mem (X : IR) (x : Int) (h : X.mem x) : X.empty = false :=
+  Interval.not_empty_of_mem h
+
+/-- `Empty()` is exactly "has no member" -/
+theorem empty_iff_no_mem (X : IR) : X.empty = true ↔ ∀ x, ¬ X.mem x :=
+  Interval.empty_iff_no_mem X
+
+/-! ## 1. soundness -/
 
 /-- Soundness of `Add`: the result contains x + y for all members. -/
 theorem add_sound (X Y : IR) (x y : Int) (hx : X.mem x) (hy : Y.mem y) :
     (add X Y).mem (x + y) := by
-  have ex := not_empty_of_mem X x hx
-  have ey := not_empty_of_mem Y y hy
+  have ex := Interval.not_empty_of_mem hx
+  have ey := Interval.not_empty_of_mem hy
   obtain ⟨hx1, hx2⟩ := hx
   obtain ⟨hy1, hy2⟩ := hy
   unfold add IR.mem
@@ -35,5 +53,604 @@ theorem add_sound (X Y : IR) (x y : Int) (hx : X.mem x) (hy : Y.mem y) :
 /-- non-vacuity: concrete half-infinite instance -/
 example : (⟨some 3, none⟩ : IR).mem 5 ∧ (⟨some (-4), some (-2)⟩ : IR).mem (-3) := by
   decide
+
+/-- Soundness of `Sub`. -/
+theorem sub_sound (X Y : IR) (x y : Int) (hx : X.mem x) (hy : Y.mem y) :
+    (sub X Y).mem (x - y) := by
+  have ex := Interval.not_empty_of_mem hx
+  have ey := Interval.not_empty_of_mem hy
+  obtain ⟨hx1, hx2⟩ := hx
+  obtain ⟨hy1, hy2⟩ := hy
+  unfold sub IR.mem
+  simp only [ex, ey, Bool.or_self, Bool.false_eq_true, ↓reduceIte]
+  constructor
+  · cases hl : X.lo <;> cases hh' : Y.hi <;> simp only [loLe]
+    split
+    · trivial
+    · rename_i heq
+      split at heq <;> simp only [Option.some.injEq, reduceCtorEq] at heq
+      rw [hl] at hx1; rw [hh'] at hy2; simp only [loLe, leHi] at hx1 hy2; omega
+  · cases hh : X.hi <;> cases hl' : Y.lo <;> simp only [leHi]
+    split
+    · trivial
+    · rename_i heq
+      split at heq <;> simp only [Option.some.injEq, reduceCtorEq] at heq
+      rw [hh] at hx2; rw [hl'] at hy1; simp only [loLe, leHi] at hx2 hy1; omega
+
+/-- `Unite` contains both operands (for all X Y, including empty ones). -/
+theorem unite_sound (X Y : IR) (z : Int) (h : X.mem z ∨ Y.mem z) : (unite X Y).mem z := by
+  unfold unite
+  split
+  · rename_i he
+    rcases h with h | h
+    · exact absurd h (not_mem_of_empty he z)
+    · exact h
+  split
+  · rename_i _ he
+    rcases h with h | h
+    · exact h
+    · exact absurd h (not_mem_of_empty he z)
+  rename_i ex ey
+  simp only [Bool.not_eq_true] at ex ey
+  obtain ⟨xl, xh⟩ := X
+  obtain ⟨yl, yh⟩ := Y
+  cases xl <;> cases xh <;> cases yl <;> cases yh <;>
+    simp_all [mem_mk, IR.empty] <;> (try split) <;> (try split) <;> omega
+
+/-- `Intersect` is exactly set intersection (for all X Y, including empty ones). -/
+theorem intersect_sound (X Y : IR) (z : Int) :
+    (intersect X Y).mem z ↔ X.mem z ∧ Y.mem z := by
+  unfold intersect
+  split
+  · rename_i he
+    simp only [Bool.or_eq_true] at he
+    constructor
+    · intro h; exact absurd h (not_mem_mkEmpty z)
+    · rintro ⟨h1, h2⟩
+      rcases he with he | he
+      · exact absurd h1 (not_mem_of_empty he z)
+      · exact absurd h2 (not_mem_of_empty he z)
+  obtain ⟨xl, xh⟩ := X
+  obtain ⟨yl, yh⟩ := Y
+  cases xl <;> cases xh <;> cases yl <;> cases yh <;>
+    simp [mem_mk] <;> (try split) <;> (try split) <;> omega
+
+/-- Soundness of `Mul`. -/
+theorem mul_sound (X Y : IR) (x y : Int) (hx : X.mem x) (hy : Y.mem y) :
+    (mul X Y).mem (x * y) := by
+  have ex := Interval.not_empty_of_mem hx
+  have ey := Interval.not_empty_of_mem hy
+  unfold mul
+  rw [mulLsh_eq]
+  simp only [ex, ey, Bool.or_self, Bool.false_eq_true, if_false, Bool.not_false, Bool.true_and]
+  split
+  · rename_i hz
+    simp only [Bool.or_eq_true] at hz
+    have : x * y = 0 := by
+      rcases hz with hz | hz
+      · rw [mem_justZero hz hx]; simp
+      · rw [mem_justZero hz hy]; simp
+    rw [this]; simp [mem_mk]
+  · have SX := split3_spec' X ex
+    have SY := split3_spec' Y ey
+    rw [toIR_mem_iff]
+    refine mulCascade_covers (f := (· * ·)) SX SY hx hy _ ?_
+      (fun _ _ => mul_monoNN) (fun _ _ => mul_monoNP) (fun _ _ => mul_monoPN) (fun _ _ => mul_monoPP)
+    intro h0
+    have hz : X.split3.2.2.2.1 = true ∨ Y.split3.2.2.2.1 = true := by
+      rcases h0 with h0 | h0
+      · exact Or.inl (SX.zero_iff.2 (h0 ▸ hx))
+      · exact Or.inr (SY.zero_iff.2 (h0 ▸ hy))
+    have hv : x * y = 0 := by rcases h0 with h0 | h0 <;> simp [h0]
+    show (mulInit X false _ _).covers (x * y)
+    rw [hv]
+    unfold mulInit
+    rcases hz with hz | hz <;> simp [hz, covers_zero]
+
+/-- `y` is a legal shift count when `TryLsh`/`TryRsh` succeeded on a non-empty `X` -/
+theorem shift_nonneg_of_not_containsNegative {Y : IR} (h : Y.containsNegative = false)
+    {y : Int} (hy : Y.mem y) : 0 ≤ y := by
+  by_cases hneg : y < 0
+  · have := (containsNegative_iff Y).2 ⟨y, hy, hneg⟩
+    simp_all
+  · omega
+
+/-- Soundness of `TryLsh`: on success the result contains `x << y = x * 2^y`
+(and every such `y` is non-negative). -/
+theorem lsh_sound (X Y Z : IR) (x y : Int) (hx : X.mem x) (hy : Y.mem y)
+    (hz : tryLsh X Y = some Z) : 0 ≤ y ∧ Z.mem (x * 2 ^ y.toNat) := by
+  have ex := Interval.not_empty_of_mem hx
+  have ey := Interval.not_empty_of_mem hy
+  unfold tryLsh at hz
+  simp only [ex, Bool.not_false, Bool.true_and] at hz
+  split at hz
+  · cases hz
+  rename_i hcn
+  simp only [Bool.not_eq_true] at hcn
+  have ynn : ∀ y', Y.mem y' → 0 ≤ y' := fun y' h => shift_nonneg_of_not_containsNegative hcn h
+  have y0 := ynn y hy
+  refine ⟨y0, ?_⟩
+  simp only [Option.some.injEq] at hz
+  subst hz
+  rw [mulLsh_eq]
+  simp only [ex, ey, Bool.or_self, Bool.false_eq_true, if_false, Bool.not_true, Bool.false_and,
+    Bool.or_false, if_true]
+  split
+  · rename_i hjz
+    rw [mem_justZero hjz hx]; simp [mem_mk]
+  · have SX := split3_spec' X ex
+    have SY := split3_spec' Y ey
+    rw [toIR_mem_iff]
+    refine mulCascade_covers (f := bigLsh) SX SY hx hy _ ?_
+      (fun _ h => absurd y0 (by omega)) (fun _ _ => lsh_monoNP)
+      (fun _ h => absurd y0 (by omega)) (fun _ _ => lsh_monoPP)
+    intro h0
+    show (mulInit X true _ _).covers (bigLsh x y)
+    unfold mulInit bigLsh
+    by_cases hzy : Y.split3.2.2.2.1 = true
+    · -- 0 ∈ Y: ret starts as X itself, and x * 2^y ∈ X for x = 0 or y = 0
+      simp only [hzy, Bool.and_self, if_true]
+      rw [covers_fromIR]
+      rcases h0 with h0 | h0
+      · subst h0; simpa using hx
+      · subst h0; simpa using hx
+    · -- 0 ∉ Y, so y ≠ 0, so x = 0 and 0 ∈ X
+      have y_ne : y ≠ 0 := fun h => hzy (SY.zero_iff.2 (h ▸ hy))
+      have x0 : x = 0 := by rcases h0 with h0 | h0; exact h0; exact absurd h0 y_ne
+      have hzx : X.split3.2.2.2.1 = true := SX.zero_iff.2 (x0 ▸ hx)
+      simp only [hzy, Bool.false_and, Bool.false_eq_true, if_false, hzx, Bool.or_true, if_true]
+      subst x0; simpa using covers_zero
+
+/-- non-vacuity of `lsh_sound` -/
+example : tryLsh ⟨some (-3), some 5⟩ ⟨some 0, some 2⟩ = some ⟨some (-12), some 20⟩ := by decide
+
+/-- Soundness of `TryQuo`: on success the result contains the truncated quotient. -/
+theorem quo_sound (X Y Z : IR) (x y : Int) (hx : X.mem x) (hy : Y.mem y)
+    (hz : tryQuo X Y = some Z) : y ≠ 0 ∧ Z.mem (Int.tdiv x y) := by
+  have ex := Interval.not_empty_of_mem hx
+  have ey := Interval.not_empty_of_mem hy
+  rw [tryQuo_eq] at hz
+  simp only [ex, ey, Bool.or_self, Bool.false_eq_true, if_false] at hz
+  split at hz
+  · cases hz
+  rename_i hcz
+  have y_ne : y ≠ 0 := by
+    intro h; subst h
+    exact hcz ((containsZero_iff Y).2 hy)
+  refine ⟨y_ne, ?_⟩
+  split at hz
+  · rename_i hjz
+    simp only [Option.some.injEq] at hz; subst hz
+    rw [mem_justZero hjz hx, Int.zero_tdiv]; simp [mem_mk]
+  · simp only [Option.some.injEq] at hz; subst hz
+    have SX := split3_spec' X ex
+    have SY := split3_spec' Y ey
+    rw [toIR_mem_iff]
+    refine quoCascade_covers SX SY hx hy y_ne _ ?_
+    intro h0
+    have hzx : X.split3.2.2.2.1 = true := SX.zero_iff.2 (h0 ▸ hx)
+    simp only [hzx, if_true]
+    exact covers_zero
+
+example : tryQuo ⟨some (-7), some 9⟩ ⟨some 2, none⟩ = some ⟨some (-3), some 4⟩ := by decide
+
+/-- Soundness of `TryRsh`: on success the result contains `x >> y = ⌊x / 2^y⌋`. -/
+theorem rsh_sound (X Y Z : IR) (x y : Int) (hx : X.mem x) (hy : Y.mem y)
+    (hz : tryRsh X Y = some Z) : 0 ≤ y ∧ Z.mem (x / 2 ^ y.toNat) := by
+  have ex := Interval.not_empty_of_mem hx
+  have ey := Interval.not_empty_of_mem hy
+  rw [tryRsh_eq] at hz
+  simp only [ex, ey, Bool.or_self, Bool.false_eq_true, if_false] at hz
+  split at hz
+  · cases hz
+  rename_i hcn
+  simp only [Bool.not_eq_true] at hcn
+  have y0 := shift_nonneg_of_not_containsNegative hcn hy
+  refine ⟨y0, ?_⟩
+  split at hz
+  · rename_i hjz
+    simp only [Option.some.injEq] at hz; subst hz
+    rw [mem_justZero hjz hx]; simp [mem_mk]
+  · simp only [Option.some.injEq] at hz; subst hz
+    have SX := split3_spec' X ex
+    -- Y has a finite, non-negative lower bound
+    obtain ⟨yl, hyl⟩ : ∃ yl, Y.lo = some yl := by
+      cases h : Y.lo with
+      | some yl => exact ⟨yl, rfl⟩
+      | none => simp [IR.containsNegative, h] at hcn
+    rw [toIR_mem_iff]
+    show BIP.covers _ (bigRsh x y)
+    rcases Int.lt_trichotomy x 0 with hx0 | hx0 | hx0
+    · obtain ⟨e1, m1⟩ := SX.neg_of_mem x hx hx0
+      obtain ⟨_, h, hh, hneg, _⟩ := SX.neg_shape e1
+      refine covers_ite ?_ (rshP_mono _ _ _)
+      simp only [e1, if_true]
+      exact rshN_hit hh hyl hneg m1 hy _
+    · have hzx : X.split3.2.2.2.1 = true := SX.zero_iff.2 (hx0 ▸ hx)
+      have : bigRsh x y = 0 := by subst hx0; simp [bigRsh]
+      rw [this]
+      refine covers_ite (covers_ite ?_ (rshN_mono _ _ _)) (rshP_mono _ _ _)
+      simp only [hzx, if_true]
+      exact covers_zero
+    · obtain ⟨e1, m1⟩ := SX.pos_of_mem x hx hx0
+      obtain ⟨_, l, hl, lpos, _⟩ := SX.pos_shape e1
+      simp only [e1, if_true]
+      exact rshP_hit hl hyl lpos m1 hy _
+
+example : tryRsh ⟨some (-7), some 9⟩ ⟨some 1, some 2⟩ = some ⟨some (-4), some 4⟩ := by decide
+
+/-! ## 2. failure exactly when some pair is undefined -/
+
+/-- `TryQuo` fails iff both operands are non-empty and the divisor range contains 0. -/
+theorem quo_fails_iff (X Y : IR) :
+    tryQuo X Y = none ↔ X.empty = false ∧ Y.empty = false ∧ Y.mem 0 := by
+  rw [tryQuo_eq]
+  cases ex : X.empty <;> cases ey : Y.empty <;> simp [← containsZero_iff]
+  cases Y.containsZero <;> simp
+  split <;> simp
+
+/-- equivalently: iff some pair (x, y) with y = 0 exists -/
+theorem quo_fails_iff_pair (X Y : IR) :
+    tryQuo X Y = none ↔ ∃ x y, X.mem x ∧ Y.mem y ∧ y = 0 := by
+  rw [quo_fails_iff]
+  constructor
+  · rintro ⟨ex, _, h0⟩
+    obtain ⟨x, hx⟩ := exists_mem_of_not_empty ex
+    exact ⟨x, 0, hx, h0, rfl⟩
+  · rintro ⟨x, y, hx, hy, rfl⟩
+    exact ⟨Interval.not_empty_of_mem hx, Interval.not_empty_of_mem hy, hy⟩
+
+/-- `TryLsh` fails iff `X` is non-empty and `Y` has a negative member.  (An empty `Y` has no
+member, so — although the Go code tests `y.ContainsNegative()` before `y.Empty()` here and
+after it in `TryRsh` — both fail in exactly the same situations.) -/
+theorem lsh_fails_iff (X Y : IR) :
+    tryLsh X Y = none ↔ X.empty = false ∧ ∃ y, Y.mem y ∧ y < 0 := by
+  rw [← containsNegative_iff]
+  unfold tryLsh
+  cases X.empty <;> cases Y.containsNegative <;> simp
+
+theorem rsh_fails_iff (X Y : IR) :
+    tryRsh X Y = none ↔ X.empty = false ∧ Y.empty = false ∧ ∃ y, Y.mem y ∧ y < 0 := by
+  rw [← containsNegative_iff, tryRsh_eq]
+  cases ex : X.empty <;> cases ey : Y.empty <;> simp
+  cases Y.containsNegative <;> simp
+  split <;> simp
+
+/-- the two shift operators fail on exactly the same operand pairs -/
+theorem lsh_fails_iff_rsh_fails (X Y : IR) : tryLsh X Y = none ↔ tryRsh X Y = none := by
+  rw [lsh_fails_iff, rsh_fails_iff]
+  constructor
+  · rintro ⟨h, y, hy, h0⟩; exact ⟨h, Interval.not_empty_of_mem hy, y, hy, h0⟩
+  · rintro ⟨h, _, h'⟩; exact ⟨h, h'⟩
+
+/-! ## 3. empty in, empty out -/
+
+theorem add_empty (X Y : IR) (h : X.empty = true ∨ Y.empty = true) : (add X Y).empty = true := by
+  unfold add; rcases h with h | h <;> simp [h, mkEmpty_empty]
+
+theorem sub_empty (X Y : IR) (h : X.empty = true ∨ Y.empty = true) : (sub X Y).empty = true := by
+  unfold sub; rcases h with h | h <;> simp [h, mkEmpty_empty]
+
+theorem mul_empty (X Y : IR) (h : X.empty = true ∨ Y.empty = true) : (mul X Y).empty = true := by
+  unfold mul mulLsh; rcases h with h | h <;> simp [h, mkEmpty_empty]
+
+theorem intersect_empty (X Y : IR) (h : X.empty = true ∨ Y.empty = true) :
+    (intersect X Y).empty = true := by
+  unfold intersect; rcases h with h | h <;> simp [h, mkEmpty_empty]
+
+theorem quo_empty (X Y : IR) (h : X.empty = true ∨ Y.empty = true) :
+    ∃ Z, tryQuo X Y = some Z ∧ Z.empty = true := by
+  refine ⟨mkEmpty, ?_, mkEmpty_empty⟩
+  unfold tryQuo; rcases h with h | h <;> simp [h]
+
+theorem rsh_empty (X Y : IR) (h : X.empty = true ∨ Y.empty = true) :
+    ∃ Z, tryRsh X Y = some Z ∧ Z.empty = true := by
+  refine ⟨mkEmpty, ?_, mkEmpty_empty⟩
+  unfold tryRsh; rcases h with h | h <;> simp [h]
+
+theorem lsh_empty (X Y : IR) (h : X.empty = true ∨ Y.empty = true) :
+    ∃ Z, tryLsh X Y = some Z ∧ Z.empty = true := by
+  refine ⟨mkEmpty, ?_, mkEmpty_empty⟩
+  have hcn : X.empty = false → Y.containsNegative = false := by
+    intro ex
+    have ey : Y.empty = true := by rcases h with h | h; simp_all; exact h
+    cases hc : Y.containsNegative with
+    | false => rfl
+    | true =>
+      obtain ⟨v, hv, _⟩ := (containsNegative_iff Y).1 hc
+      exact absurd hv (not_mem_of_empty ey v)
+  unfold tryLsh mulLsh
+  cases ex : X.empty
+  · have := hcn ex
+    have ey : Y.empty = true := by rcases h with h | h; simp_all; exact h
+    simp [this, ey]
+  · simp
+
+theorem and_empty (X Y : IR) (h : X.empty = true ∨ Y.empty = true) :
+    Interval.and X Y = some mkEmpty := by
+  unfold Interval.and; rcases h with h | h <;> simp [h]
+
+theorem or_empty (X Y : IR) (h : X.empty = true ∨ Y.empty = true) :
+    Interval.or X Y = some mkEmpty := by
+  unfold Interval.or; rcases h with h | h <;> simp [h]
+
+/-- `Unite` with an empty operand returns the other operand (a copy, in Go) — so the result is
+empty iff both are. -/
+theorem unite_empty_left (X Y : IR) (h : X.empty = true) : unite X Y = Y := by
+  unfold unite; simp [h]
+
+theorem unite_empty_right (X Y : IR) (hx : X.empty = false) (h : Y.empty = true) :
+    unite X Y = X := by
+  unfold unite; simp [h, hx]
+
+theorem unite_empty (X Y : IR) (hx : X.empty = true) (hy : Y.empty = true) :
+    (unite X Y).empty = true := by
+  rw [unite_empty_left X Y hx]; exact hy
+
+/-- every operator: empty operand ⇒ the result has no member -/
+theorem empty_in_empty_out (X Y : IR) (h : X.empty = true ∨ Y.empty = true) :
+    (add X Y).empty = true ∧ (sub X Y).empty = true ∧ (mul X Y).empty = true ∧
+    (intersect X Y).empty = true ∧
+    (∃ Z, tryQuo X Y = some Z ∧ Z.empty = true) ∧
+    (∃ Z, tryLsh X Y = some Z ∧ Z.empty = true) ∧
+    (∃ Z, tryRsh X Y = some Z ∧ Z.empty = true) ∧
+    Interval.and X Y = some mkEmpty ∧ Interval.or X Y = some mkEmpty ∧
+    (X.empty = true → Y.empty = true → (unite X Y).empty = true) :=
+  ⟨add_empty X Y h, sub_empty X Y h, mul_empty X Y h, intersect_empty X Y h, quo_empty X Y h,
+   lsh_empty X Y h, rsh_empty X Y h, and_empty X Y h, or_empty X Y h, unite_empty X Y⟩
+
+example : (⟨some 3, some 1⟩ : IR).empty = true := by decide
+
+/-! ## 4. tightness: with four finite bounds and non-empty operands, both result bounds are
+attained, so (with soundness) the result is exactly the hull of `{x op y}`. -/
+
+section tight
+variable (X Y : IR) {xl xh yl yh : Int}
+
+theorem add_tight (hxl : X.lo = some xl) (hxh : X.hi = some xh) (hyl : Y.lo = some yl)
+    (hyh : Y.hi = some yh) (ex : X.empty = false) (ey : Y.empty = false) :
+    TightHull (· + ·) X Y (add X Y) := by
+  refine ⟨xl + yl, xh + yh, ?_, ⟨xl, yl, lo_mem ex hxl, lo_mem ey hyl, rfl⟩,
+    ⟨xh, yh, hi_mem ex hxh, hi_mem ey hyh, rfl⟩⟩
+  unfold add; simp [ex, ey, hxl, hxh, hyl, hyh]
+
+theorem sub_tight (hxl : X.lo = some xl) (hxh : X.hi = some xh) (hyl : Y.lo = some yl)
+    (hyh : Y.hi = some yh) (ex : X.empty = false) (ey : Y.empty = false) :
+    TightHull (· - ·) X Y (sub X Y) := by
+  refine ⟨xl - yh, xh - yl, ?_, ⟨xl, yh, lo_mem ex hxl, hi_mem ey hyh, rfl⟩,
+    ⟨xh, yl, hi_mem ex hxh, lo_mem ey hyl, rfl⟩⟩
+  unfold sub; simp [ex, ey, hxl, hxh, hyl, hyh]
+
+/-- `Unite` of two non-empty finite intervals: both bounds are bounds of an operand, hence
+members of `X ∪ Y` (the hull of the union). -/
+theorem unite_tight (hxl : X.lo = some xl) (hxh : X.hi = some xh) (hyl : Y.lo = some yl)
+    (hyh : Y.hi = some yh) (ex : X.empty = false) (ey : Y.empty = false) :
+    ∃ l h, unite X Y = ⟨some l, some h⟩ ∧ (X.mem l ∨ Y.mem l) ∧ (X.mem h ∨ Y.mem h) := by
+  have mxl := lo_mem ex hxl
+  have mxh := hi_mem ex hxh
+  have myl := lo_mem ey hyl
+  have myh := hi_mem ey hyh
+  refine ⟨if xl < yl then xl else yl, if xh > yh then xh else yh, ?_, ?_, ?_⟩
+  · unfold unite; simp [ex, ey, hxl, hxh, hyl, hyh]
+  · split; exact Or.inl mxl; exact Or.inr myl
+  · split; exact Or.inl mxh; exact Or.inr myh
+
+theorem mul_tight (hxl : X.lo = some xl) (hxh : X.hi = some xh) (hyl : Y.lo = some yl)
+    (hyh : Y.hi = some yh) (ex : X.empty = false) (ey : Y.empty = false) :
+    TightHull (· * ·) X Y (mul X Y) := by
+  have mxl := lo_mem ex hxl
+  have myl := lo_mem ey hyl
+  unfold mul
+  rw [mulLsh_eq]
+  simp only [ex, ey, Bool.or_self, Bool.false_eq_true, if_false, Bool.not_false, Bool.true_and]
+  split
+  · rename_i hz
+    simp only [Bool.or_eq_true] at hz
+    have : Img (· * ·) X Y 0 := by
+      rcases hz with hz | hz
+      · exact ⟨xl, yl, mxl, myl, by simp [mem_justZero hz mxl]⟩
+      · exact ⟨xl, yl, mxl, myl, by simp [mem_justZero hz myl]⟩
+    exact ⟨0, 0, rfl, this, this⟩
+  · have SX := split3_spec' X ex
+    have SY := split3_spec' Y ey
+    have hc := mulCascade_covers (f := (· * ·)) SX SY mxl myl
+      (mulInit X false X.split3.2.2.2.1 Y.split3.2.2.2.1) (by
+        intro h0
+        have hz : X.split3.2.2.2.1 = true ∨ Y.split3.2.2.2.1 = true := by
+          rcases h0 with h0 | h0
+          · exact Or.inl (SX.zero_iff.2 (h0 ▸ mxl))
+          · exact Or.inr (SY.zero_iff.2 (h0 ▸ myl))
+        have hv : xl * yl = 0 := by rcases h0 with h0 | h0 <;> simp [h0]
+        show BIP.covers _ (xl * yl)
+        rw [hv]
+        unfold mulInit
+        rcases hz with hz | hz <;> simp [hz, covers_zero])
+      (fun _ _ => mul_monoNN) (fun _ _ => mul_monoNP) (fun _ _ => mul_monoPN)
+      (fun _ _ => mul_monoPP)
+    refine toIR_of_att_covers (S := Img (· * ·) X Y) ?_ hc
+    refine mulCascade_att SX SY ex ey hxl hxh hyl hyh (fun a b ha hb => ⟨a, b, ha, hb, rfl⟩) _ ?_
+    unfold mulInit
+    simp only [Bool.and_false, Bool.false_eq_true, if_false, Bool.not_false, Bool.and_true]
+    split
+    · rename_i hz
+      simp only [Bool.or_eq_true] at hz
+      have : Img (· * ·) X Y 0 := by
+        rcases hz with hz | hz
+        · exact ⟨xl, 0, mxl, SY.zero_iff.1 hz, by simp⟩
+        · exact ⟨0, yl, SX.zero_iff.1 hz, myl, by simp⟩
+      exact att_fin this this
+    · exact att_new _
+
+/-- non-vacuity: a sign-straddling instance -/
+example : mul ⟨some (-3), some 5⟩ ⟨some (-7), some 2⟩ = ⟨some (-35), some 21⟩ := by decide
+
+theorem quo_tight (hxl : X.lo = some xl) (hxh : X.hi = some xh) (hyl : Y.lo = some yl)
+    (hyh : Y.hi = some yh) (ex : X.empty = false) (ey : Y.empty = false)
+    (h0 : ¬ Y.mem 0) : ∃ Z, tryQuo X Y = some Z ∧ TightHull Int.tdiv X Y Z := by
+  have mxl := lo_mem ex hxl
+  have myl := lo_mem ey hyl
+  have yl_ne : yl ≠ 0 := fun h => h0 (h ▸ myl)
+  rw [tryQuo_eq]
+  have hcz : Y.containsZero = false := by
+    cases h : Y.containsZero with
+    | false => rfl
+    | true => exact absurd ((containsZero_iff Y).1 h) h0
+  simp only [ex, ey, hcz, Bool.or_self, Bool.false_eq_true, if_false]
+  split
+  · rename_i hz
+    have : Img Int.tdiv X Y 0 := ⟨xl, yl, mxl, myl, by simp [mem_justZero hz mxl]⟩
+    exact ⟨_, rfl, 0, 0, rfl, this, this⟩
+  · refine ⟨_, rfl, ?_⟩
+    have SX := split3_spec' X ex
+    have SY := split3_spec' Y ey
+    have hc := quoCascade_covers SX SY mxl myl yl_ne
+      (if X.split3.2.2.2.1 then ⟨.fin 0, .fin 0⟩ else BIP.new) (by
+        intro h0
+        have hzx : X.split3.2.2.2.1 = true := SX.zero_iff.2 (h0 ▸ mxl)
+        simp only [hzx, if_true]
+        exact covers_zero)
+    refine toIR_of_att_covers (S := Img Int.tdiv X Y) ?_ hc
+    refine quoCascade_att SX SY ex ey hxl hxh hyl hyh (fun a b ha hb => ⟨a, b, ha, hb, rfl⟩) _ ?_
+    split
+    · rename_i hz
+      have : Img Int.tdiv X Y 0 := ⟨0, yl, SX.zero_iff.1 hz, myl, by simp⟩
+      exact att_fin this this
+    · exact att_new _
+
+example : tryQuo ⟨some (-7), some 9⟩ ⟨some (-4), some (-2)⟩ = some ⟨some (-4), some 3⟩ := by
+  decide
+
+theorem lsh_tight (hxl : X.lo = some xl) (hxh : X.hi = some xh) (hyl : Y.lo = some yl)
+    (hyh : Y.hi = some yh) (ex : X.empty = false) (ey : Y.empty = false)
+    (h0 : 0 ≤ yl) : ∃ Z, tryLsh X Y = some Z ∧ TightHull bigLsh X Y Z := by
+  have mxl := lo_mem ex hxl
+  have myl := lo_mem ey hyl
+  have hcn : Y.containsNegative = false := by
+    cases h : Y.containsNegative with
+    | false => rfl
+    | true =>
+      obtain ⟨v, ⟨hv, _⟩, hneg⟩ := (containsNegative_iff Y).1 h
+      rw [hyl] at hv; simp at hv; omega
+  have ynn : ∀ y', Y.mem y' → 0 ≤ y' := fun y' h => shift_nonneg_of_not_containsNegative hcn h
+  unfold tryLsh
+  simp only [hcn, Bool.and_false, Bool.false_eq_true, if_false]
+  refine ⟨_, rfl, ?_⟩
+  rw [mulLsh_eq]
+  simp only [ex, ey, Bool.or_self, Bool.false_eq_true, if_false, Bool.not_true, Bool.false_and,
+    Bool.or_false, if_true]
+  split
+  · rename_i hz
+    have : Img bigLsh X Y 0 := ⟨xl, yl, mxl, myl, by simp [mem_justZero hz mxl, bigLsh]⟩
+    exact ⟨0, 0, rfl, this, this⟩
+  · have SX := split3_spec' X ex
+    have SY := split3_spec' Y ey
+    have hc := mulCascade_covers (f := bigLsh) SX SY mxl myl
+      (mulInit X true X.split3.2.2.2.1 Y.split3.2.2.2.1) (by
+        intro h0'
+        show BIP.covers _ (bigLsh xl yl)
+        unfold mulInit bigLsh
+        by_cases hzy : Y.split3.2.2.2.1 = true
+        · simp only [hzy, Bool.and_self, if_true]
+          rw [covers_fromIR]
+          rcases h0' with h0' | h0'
+          · rw [h0']; simpa [h0'] using mxl
+          · rw [h0']; simpa using mxl
+        · have y_ne : yl ≠ 0 := fun h => hzy (SY.zero_iff.2 (h ▸ myl))
+          have x0 : xl = 0 := by rcases h0' with h | h; exact h; exact absurd h y_ne
+          have hzx : X.split3.2.2.2.1 = true := SX.zero_iff.2 (x0 ▸ mxl)
+          simp only [hzy, Bool.false_and, Bool.false_eq_true, if_false, hzx, Bool.or_true, if_true]
+          rw [x0]; simpa using covers_zero)
+      (fun _ h => absurd h0 (by omega)) (fun _ _ => lsh_monoNP)
+      (fun _ h => absurd h0 (by omega)) (fun _ _ => lsh_monoPP)
+    refine toIR_of_att_covers (S := Img bigLsh X Y) ?_ hc
+    refine mulCascade_att SX SY ex ey hxl hxh hyl hyh (fun a b ha hb => ⟨a, b, ha, hb, rfl⟩) _ ?_
+    unfold mulInit
+    simp only [Bool.and_true, Bool.not_true, Bool.and_false, Bool.false_or]
+    split
+    · -- 0 ∈ Y: ret starts as X; X's bounds are x << 0
+      rename_i hz
+      have m0 := SY.zero_iff.1 hz
+      unfold BIP.fromIR
+      simp only [hxl, hxh]
+      exact att_fin ⟨xl, 0, mxl, m0, by simp [bigLsh]⟩ ⟨xh, 0, hi_mem ex hxh, m0, by simp [bigLsh]⟩
+    · split
+      · rename_i hz
+        have : Img bigLsh X Y 0 := ⟨0, yl, SX.zero_iff.1 hz, myl, by simp [bigLsh]⟩
+        exact att_fin this this
+      · exact att_new _
+
+example : tryLsh ⟨some (-3), some 5⟩ ⟨some 1, some 3⟩ = some ⟨some (-24), some 40⟩ := by decide
+
+theorem rsh_tight (hxl : X.lo = some xl) (hxh : X.hi = some xh) (hyl : Y.lo = some yl)
+    (hyh : Y.hi = some yh) (ex : X.empty = false) (ey : Y.empty = false)
+    (h0 : 0 ≤ yl) : ∃ Z, tryRsh X Y = some Z ∧ TightHull bigRsh X Y Z := by
+  have mxl := lo_mem ex hxl
+  have mxh := hi_mem ex hxh
+  have myl := lo_mem ey hyl
+  have myh := hi_mem ey hyh
+  have hcn : Y.containsNegative = false := by
+    cases h : Y.containsNegative with
+    | false => rfl
+    | true =>
+      obtain ⟨v, ⟨hv, _⟩, hneg⟩ := (containsNegative_iff Y).1 h
+      rw [hyl] at hv; simp at hv; omega
+  obtain ⟨Z, hZ⟩ : ∃ Z, tryRsh X Y = some Z := by
+    cases h : tryRsh X Y with
+    | some Z => exact ⟨Z, rfl⟩
+    | none =>
+      obtain ⟨_, _, v, hv, hneg⟩ := (rsh_fails_iff X Y).1 h
+      have := shift_nonneg_of_not_containsNegative hcn hv
+      omega
+  refine ⟨Z, hZ, ?_⟩
+  -- soundness gives a covered value; attainment from the block lemmas
+  have hsound := (rsh_sound X Y Z xl yl mxl myl hZ).2
+  rw [tryRsh_eq] at hZ
+  simp only [ex, ey, hcn, Bool.or_self, Bool.false_eq_true, if_false] at hZ
+  split at hZ
+  · rename_i hz
+    simp only [Option.some.injEq] at hZ; subst hZ
+    have : Img bigRsh X Y 0 := ⟨xl, yl, mxl, myl, by simp [mem_justZero hz mxl, bigRsh]⟩
+    exact ⟨0, 0, rfl, this, this⟩
+  · simp only [Option.some.injEq] at hZ; subst hZ
+    have SX := split3_spec' X ex
+    rw [toIR_mem_iff] at hsound
+    refine toIR_of_att_covers (S := Img bigRsh X Y) ?_ hsound
+    have hS : ∀ a b, X.mem a → Y.mem b → Img bigRsh X Y (bigRsh a b) :=
+      fun a b ha hb => ⟨a, b, ha, hb, rfl⟩
+    refine att_ite (att_ite ?_ ?_) ?_
+    · split
+      · rename_i hz
+        have : Img bigRsh X Y 0 := ⟨0, yl, SX.zero_iff.1 hz, myl, by simp [bigRsh]⟩
+        exact att_fin this this
+      · exact att_new _
+    · intro e1
+      obtain ⟨p1, h, hh, _, mh⟩ := SX.neg_shape e1
+      refine rshN_att (p1.trans hxl) hh hyl hyh (hS _ _ mxl myl) (hS _ _ mh myh) _ ?_
+      split
+      · rename_i hz
+        have : Img bigRsh X Y 0 := ⟨0, yl, SX.zero_iff.1 hz, myl, by simp [bigRsh]⟩
+        exact att_fin this this
+      · exact att_new _
+    · intro e1
+      obtain ⟨p1, l, hl, _, ml⟩ := SX.pos_shape e1
+      refine rshP_att hl (p1.trans hxh) hyl hyh (hS _ _ ml myh) (hS _ _ mxh myl) _ ?_
+      refine att_ite ?_ ?_
+      · split
+        · rename_i hz
+          have : Img bigRsh X Y 0 := ⟨0, yl, SX.zero_iff.1 hz, myl, by simp [bigRsh]⟩
+          exact att_fin this this
+        · exact att_new _
+      · intro e1
+        obtain ⟨p1, h, hh, _, mh⟩ := SX.neg_shape e1
+        refine rshN_att (p1.trans hxl) hh hyl hyh (hS _ _ mxl myl) (hS _ _ mh myh) _ ?_
+        split
+        · rename_i hz
+          have : Img bigRsh X Y 0 := ⟨0, yl, SX.zero_iff.1 hz, myl, by simp [bigRsh]⟩
+          exact att_fin this this
+        · exact att_new _
+
+example : tryRsh ⟨some (-9), some 20⟩ ⟨some 1, some 3⟩ = some ⟨some (-5), some 10⟩ := by decide
+
+end tight
 
 end WuffsVerif.Props.C06
